@@ -25,7 +25,7 @@ long long vp_get (const char *key)
 {
     if (ntab < 0) load ();
     char norm[128]; int j = 0;
-    for (const char *p = key; *p && j < 127; p++) if (*p != ' ') norm[j++] = *p;
+    for (const char *p = key; *p && j < 127; p++) if (*p != ' ' && *p != '(' && *p != ')') norm[j++] = *p;
     norm[j] = 0;
     for (int i = 0; i < ntab; i++) if (!strcmp (tab[i].k, norm)) return tab[i].v;
     return 0;
